@@ -18,7 +18,7 @@ POSTCONDITION Accepted
 CHECK_DEADLOCK FALSE
 """
 
-MC_CFG = """CONSTANTS NProd = %d NRec = %d QMax = %d BMax = %d NFlush = %d NShut = %d Budget = %d Variant = "%s" Dev = {%s} defaultInitValue = 0
+MC_CFG = """CONSTANTS NProd = %d NRec = %d QMax = %d BMax = %d NFlush = %d NShut = %d Budget = %d Variant = "%s" Dev = {%s} Hist = FALSE defaultInitValue = 0
 SPECIFICATION %s
 %s
 """
@@ -145,12 +145,16 @@ def model_check_batch(ctx, invariants, expect_violation_with_devs=None, live=Tru
     shapes = [(1, 1, 1, 1, 1, 1, 99), (2, 1, 2, 1, 0, 1, 99)]
     if thorough:
         shapes += [(1, 2, 2, 1, 1, 1, 99), (1, 1, 1, 1, 2, 1, 99), (2, 1, 1, 1, 1, 1, 1)]
+    small = shapes[:2]
     for variant in ("span", "log"):
         for (np_, nr, q, b, nf, ns, bud) in shapes:
             # Dev = {} is the code as it is now (both deviations were repaired by a fix: commit); the
-            # historical variants are kept as named deviations and re-checked in the thorough tier of C03
+            # historical variants are kept as named deviations and re-checked (small shapes, span) in the
+            # thorough tier of C03
             for devs in ([], BATCH_DEVS):
-                if devs and not (with_devs and thorough):
+                if devs and not (with_devs and thorough and variant == "span" and (np_, nr, q, b, nf, ns, bud) in small):
+                    continue
+                if variant == "log" and thorough and (np_, nr, q, b, nf, ns, bud) not in small + shapes[2:3]:
                     continue
                 c = write_cfg(ctx, "mc.cfg", MC_CFG % (np_, nr, q, b, nf, ns, bud, variant, _q(devs), "Spec", inv_line))
                 r = tlc.tlc("BatchProcessor", c, rundir=ctx.rundir.path, workers=12, timeout_s=1200 if thorough else 420,
@@ -175,6 +179,55 @@ def model_check_batch(ctx, invariants, expect_violation_with_devs=None, live=Tru
             ctx.extra.setdefault("model_violations", []).append({"cfg": "liveness", "invariant": "Termination2"})
         elif r.status not in ("ok", "timeout"):
             tlc.must_ok(r, "BatchProcessor liveness")
+
+
+GEN_CFG = """CONSTANTS NProd = %d NRec = %d QMax = %d BMax = %d NFlush = %d NShut = %d Budget = %d Variant = "%s" Dev = {} Hist = TRUE defaultInitValue = 0
+SPECIFICATION Spec
+INVARIANTS EmitLog
+"""
+
+
+def model_vs_monitor(ctx):
+    """Over-strictness guard for the Level-A monitor: behaviours of the Level-B model (random walks of
+    BatchProcessor.tla with its event log recorded) are fed to BatchMonitor.tla with ALL clauses enabled.
+    The model satisfies the properties (TLC, above), so a rejection means the monitor demands more than
+    the design gives (or the model's event export is wrong): a broken check, never a violation."""
+    thorough = ctx.tier == "thorough"
+    lines = []
+    n_logs = 0
+    for (np_, nr, q, b, nf, ns, bud, variant) in [(2, 2, 2, 1, 1, 1, 99, "span"), (2, 2, 1, 1, 2, 2, 1, "log"), (3, 1, 2, 2, 1, 1, 99, "span"),
+                                                  (1, 3, 3, 2, 2, 1, 2, "log")]:
+        c = write_cfg(ctx, "gen.cfg", GEN_CFG % (np_, nr, q, b, nf, ns, bud, variant))
+        r = tlc.tlc("BatchProcessor", c, rundir=ctx.rundir.path, workers=4, timeout_s=600,
+                    simulate={"num": 300 if thorough else 20, "depth": 600}, seed=ctx.seed + 3, tag="gen")
+        if r.status != "ok":
+            raise Broken("BatchProcessor log generation failed: %s" % r.status)
+        ctx.add_tlc("BatchProcessor %s log generation (simulate) P%dx%d Q%d B%d F%d S%d" % (variant, np_, nr, q, b, nf, ns), r, complete=True)
+        seen = set()
+        cap = 1500 if thorough else 150
+        for raw in r.printed_raw("BEH"):
+            if raw in seen:
+                continue
+            seen.add(raw)
+            if len(seen) > cap:
+                break
+            ev = json.loads(tlc._unescape(raw[1:-1]))
+            lines.append(json.dumps({"e": "Cfg", "kind": variant, "Q": q, "B": b, "np": np_, "nr": nr, "nf": nf, "ns": ns,
+                                     "src": "BatchProcessor.tla"}, separators=(",", ":")))
+            lines.extend(json.dumps(e, separators=(",", ":")) for e in ev)
+            lines.append(json.dumps({"e": "End", "live": 0}, separators=(",", ":")))
+            n_logs += 1
+    if n_logs < 20:
+        raise Broken("too few model behaviours generated (%d)" % n_logs)
+    cfg = write_cfg(ctx, "mon-model.cfg", MON_CFG % ("", 'C01","C02","C03'))
+    saved = ctx.traces
+    res = trace.validate(ctx, "BatchMonitor", cfg, lines, parallel=4, chunk=500, tag="modelA")
+    ctx.traces = saved            # model behaviours are not executions of the implementation
+    ctx.extra["levelB_behaviours_accepted_by_levelA_monitor"] = res["accepted"]
+    if res["rejected"]:
+        rj = res["rejected"][0]
+        raise Broken("BatchMonitor rejects a behaviour of the Level-B model at event %d: %s" % (
+            rj["at"], json.dumps(rj["events"][max(0, rj["at"] - 6):rj["at"] + 1])))
 
 
 def generic_replay(ctx, path):
